@@ -68,8 +68,15 @@ func VerifC01Snapshots() {
 		d = newVDB(vTagsIndex)
 	}
 	w := d.db.WriteTxn(d.table)
+	// IDSET=1: primary keys that are prefixes of one another ("a","ab","abc"); the
+	// symbolic writes then pick their key from this list
+	idset := [][]byte{[]byte("a"), []byte("ab"), []byte("abc")}
 	for i := 0; i < PRE; i++ {
-		d.table.Insert(w, &vobj{id: []byte{byte('b' + 2*i)}, tags: [][]byte{{'t'}}, pfx: []byte{0x10}, plen: 4, val: uint64(i)})
+		id := []byte{byte('b' + 2*i)}
+		if vnd.Param("IDSET", 0) == 1 {
+			id = idset[i%len(idset)]
+		}
+		d.table.Insert(w, &vobj{id: id, tags: [][]byte{{'t'}}, pfx: []byte{0x10}, plen: 4, val: uint64(i)})
 	}
 	w.Commit()
 
@@ -88,16 +95,23 @@ func VerifC01Snapshots() {
 	keep(d.db.ReadTxn())
 	for i := 0; i < N; i++ {
 		w := d.db.WriteTxn(d.table)
-		k := vnd.Bytes("k", L)
-		switch vnd.IntRange("op", 0, vnd.Param("OPMAX", 2)) {
-		case 0: // insert / update keeping the shared tag and prefix
-			d.table.Insert(w, &vobj{id: k, tags: [][]byte{{'t'}}, pfx: []byte{0x10}, plen: 4, val: uint64(10 + i)})
-		case 2: // insert / update with symbolic (key-changing) index keys
-			tg := vnd.Bytes("tag", 1)
-			pl := uint16(4 * vnd.IntRange("plen", 0, 2))
-			d.table.Insert(w, &vobj{id: k, tags: [][]byte{tg, {'u'}}, pfx: []byte{vnd.Byte("pfx")}, plen: pl, val: uint64(20 + i)})
-		case 1:
-			d.table.Delete(w, &vobj{id: k})
+		for wi := 0; wi < vnd.Param("WPT", 1); wi++ { // writes per transaction
+			var k []byte
+			if vnd.Param("IDSET", 0) == 1 {
+				k = idset[vnd.IntRange("kid", 0, len(idset)-1)]
+			} else {
+				k = vnd.Bytes("k", L)
+			}
+			switch vnd.IntRange("op", 0, vnd.Param("OPMAX", 2)) {
+			case 0: // insert / update keeping the shared tag and prefix
+				d.table.Insert(w, &vobj{id: k, tags: [][]byte{{'t'}}, pfx: []byte{0x10}, plen: 4, val: uint64(10 + i)})
+			case 2: // insert / update with symbolic (key-changing) index keys
+				tg := vnd.Bytes("tag", 1)
+				pl := uint16(4 * vnd.IntRange("plen", 0, 2))
+				d.table.Insert(w, &vobj{id: k, tags: [][]byte{tg, {'u'}}, pfx: []byte{vnd.Byte("pfx")}, plen: pl, val: uint64(20 + i)})
+			case 1:
+				d.table.Delete(w, &vobj{id: k})
+			}
 		}
 		// snapshot taken while the write is pending must not see it, and
 		// snapshots taken earlier must not change
